@@ -1,1 +1,1 @@
-let () = ignore Driver2.fam_lu; ignore Driver3.fam_rosmock; Driver.main ()
+let () = ignore Driver2.fam_lu; ignore Driver3.fam_rosmock; ignore Driver4.fam_jitforcing; Driver.main ()
